@@ -206,7 +206,7 @@ func (m *mirror) apply(o hop) {
 			m.everRemoved[o.Name] = true
 		}
 	case opAppendNewBlock:
-		b.items = append(b.items, &mItem{isBlock: true, typ: o.Name, labels: append([]string{}, o.Labels...), body: &mBody{}})
+		b.items = append(b.items, &mItem{isBlock: true, typ: o.Name, labels: refNormAll(o.Labels), body: &mBody{}}) // unicode.go: the form the file must carry
 	case opRemoveBlock:
 		bl := b.blocks()
 		if o.Index >= 0 && o.Index < len(bl) {
@@ -228,7 +228,7 @@ func (m *mirror) apply(o hop) {
 	case opSetLabels:
 		bl := b.blocks()
 		if o.Index >= 0 && o.Index < len(bl) {
-			bl[o.Index].labels = append([]string{}, o.Labels...)
+			bl[o.Index].labels = refNormAll(o.Labels)
 			bl[o.Index].srcLabels = false
 		}
 	case opAppendNewline, opAppendRaw:
@@ -358,7 +358,7 @@ func checkReaders(b *hclwrite.Body, mb *mBody, path string, out *[]oracleFail) {
 			} else if !mk.srcLabels && onlyEscapedIntroducerDiffers(ls, mk.labels) {
 				add("label-escaped-introducer-misread", "block %d: Labels() = %q after SetLabels/AppendNewBlock(%q)", i, ls, mk.labels)
 			} else {
-				add("reader-disagrees", "block %d: Labels() = %q, expected %q", i, ls, mk.labels)
+				add("reader-disagrees", "block %d: Labels() = %+q, expected %+q", i, ls, mk.labels)
 			}
 		}
 		checkReaders(bl.Body(), mk.body, fmt.Sprintf("%s.%d", path, i), out)
